@@ -69,6 +69,11 @@ def parseCase (toks : List String) : Option Case :=
 def handle (toks : List String) : Option String :=
   match toks with
   | "tbs" :: rest => do
+    -- the code as it is after the repair `fix: TBS canonical RR order`
+    let c ← parseCase rest
+    pure (showOutcome toHex (tbsFixed c.name c.cls c.input c.records))
+  | "tbsold" :: rest => do
+    -- model of TBS::new before the repair (kept for the regression counter-examples)
     let c ← parseCase rest
     pure (showOutcome toHex (tbsImpl c.name c.cls c.input c.records))
   | "tbsfixed" :: rest => do
